@@ -381,7 +381,19 @@ def union(members, depth=0, pairs=False):
                     return Fail("conformance:accepted-text-result-does-not-conform", order=p, text=t, result_type=type(res).__name__)
             return True
         v = pair_value("v") if pairs else element("v", depth)
-        member_verdicts = [accept_obj(m, v)[0] for m in members]
+
+        def member_verdict(m):
+            if m == "None":
+                # the None member accepts None and the text of None (judged by the code on Optional[bool], not by the harness)
+                if v is None:
+                    return True
+                if isinstance(v, str):
+                    ok, res = accept_obj(["Optional", "bool"], v)
+                    return ok and res is None
+                return False
+            return accept_obj(m, v)[0]
+
+        member_verdicts = [member_verdict(m) for m in members]
         exp = any(member_verdicts)
         for p in perms:
             acc, res = accept_obj(["Union"] + p, v)
@@ -407,7 +419,7 @@ def plan(tier):
             jobs.append(("container", dict(head=head, elem=l)))
     jobs.append(("fixed_tuple", dict(elems=["int", "str"])))
     jobs.append(("fixed_tuple", dict(elems=["float", "bool"])))
-    pairs = [("int", "str"), ("float", "bool"), ("int", "float"), ("bool", "int"), ("str", "None"), ("str", "float"), ("PositiveInt", "str"), ("Color", "int")]
+    pairs = [("int", "str"), ("float", "bool"), ("int", "float"), ("bool", "int"), ("str", "None"), ("str", "float"), ("PositiveInt", "str"), ("Color", "int"), ("None", "Color")]
     if tier == "thorough":
         pairs = list(itertools.combinations(LEAVES + ["None"], 2))
     for a, b in pairs:
